@@ -2,6 +2,7 @@ package main
 
 import (
 	"go/types"
+	"strings"
 
 	"golang.org/x/tools/go/ssa"
 )
@@ -20,8 +21,27 @@ type callGraph struct {
 }
 
 func sigKey(s *types.Signature) string {
-	// receiver-less signature string
-	return types.TypeString(types.NewSignatureType(nil, nil, nil, s.Params(), s.Results(), s.Variadic()), nil)
+	// receiver-less, parameter-name-independent signature string
+	var b strings.Builder
+	b.WriteString("func(")
+	for i := 0; i < s.Params().Len(); i++ {
+		if i > 0 {
+			b.WriteString(",")
+		}
+		if s.Variadic() && i == s.Params().Len()-1 {
+			b.WriteString("...")
+		}
+		b.WriteString(types.TypeString(s.Params().At(i).Type(), nil))
+	}
+	b.WriteString(")(")
+	for i := 0; i < s.Results().Len(); i++ {
+		if i > 0 {
+			b.WriteString(",")
+		}
+		b.WriteString(types.TypeString(s.Results().At(i).Type(), nil))
+	}
+	b.WriteString(")")
+	return b.String()
 }
 
 func (c *Ctx) callgraph() *callGraph {
@@ -44,7 +64,13 @@ func (c *Ctx) callgraph() *callGraph {
 			}
 		}
 	}
-	for _, f := range c.AllFns {
+	scan := append([]*ssa.Function{}, c.AllFns...)
+	for _, sp := range c.spkgs {
+		if initFn := sp.Func("init"); initFn != nil && len(initFn.Blocks) > 0 {
+			scan = append(scan, initFn) // synthetic package initialisers: registries of function values live here
+		}
+	}
+	for _, f := range scan {
 		eachInstr(f, func(i ssa.Instruction) {
 			cc := callCommon(i)
 			for _, op := range i.Operands(nil) {
